@@ -27,10 +27,12 @@ import (
 // Wire format: see /verif/coq/C15/Extract.v.
 //
 // input  : gates nops op*   (gates: bit 0 = ElasticQuotaEnableUpdateResourceKey, bit 1 = ElasticQuotaGuaranteeUsage)
-//   op      = kind(0 add,1 update,2 delete) name npods (label ns)* payload [payload_old when kind=1]
+//   op      = kind name npods (label ns)* payload [payload_old when kind=1 or 4]
+//             kind 0 add, 1 update, 2 delete: admission requests (ValidAddQuota / ValidUpdateQuota / ValidDeleteQuota)
+//             kind 3 add, 4 update, 5 delete: informer deliveries (OnQuotaAdd / OnQuotaUpdate / OnQuotaDelete)
 //   payload = plabel isParent tree treeRoot force sw nsBad nns ns* strictBad nstrict key* vec(used) vec(min) vec(max) vec(guaranteed)
 //   vec     = k (key value)*
-// observable : per op  accepted(0/1), then the recorded topology:
+// observable : per op  outcome (0 rejected, 1 admitted / handled, 2 the informer handler panicked), then the recorded topology:
 //   ninfos (name parent isParent force treeRoot tree min[3] max[3])*  nhier (key nchildren child*)*  nns (ns quota)*
 
 const vtC15Dims = 3
@@ -182,7 +184,7 @@ func vtC15Decode(in []int64) (int64, []vtC15Op) {
 			op.pods = append(op.pods, [2]int64{l, ns})
 		}
 		op.newP = r.payload()
-		if op.kind == 1 {
+		if op.kind == 1 || op.kind == 4 {
 			op.oldP = r.payload()
 		}
 		ops = append(ops, op)
@@ -226,7 +228,7 @@ func vtC15EncOp(op vtC15Op) []int64 {
 		out = append(out, p[0], p[1])
 	}
 	out = append(out, vtC15EncPayload(op.newP)...)
-	if op.kind == 1 {
+	if op.kind == 1 || op.kind == 4 {
 		out = append(out, vtC15EncPayload(op.oldP)...)
 	}
 	return out
@@ -344,6 +346,33 @@ func vtC15Client(pods [][2]int64) client.Client {
 
 var vtC15EmptyClient client.Client
 
+// vtC15Inform hands one informer event to the real handler, the way the shared informer does
+// (typed objects from its cache); 1 = handled, 2 = the handler panicked.
+func vtC15Inform(qt *quotaTopology, op vtC15Op) (out int64) {
+	defer func() {
+		if e := recover(); e != nil {
+			out = 2
+		}
+	}()
+	switch op.kind {
+	case 3:
+		qt.OnQuotaAdd(vtC15Quota(op.name, op.newP))
+	case 4:
+		qt.OnQuotaUpdate(vtC15Quota(op.name, op.oldP), vtC15Quota(op.name, op.newP))
+	default:
+		qt.OnQuotaDelete(vtC15Quota(op.name, op.newP))
+	}
+	return 1
+}
+
+// vtC15Do drives one op (request or informer delivery) and returns its outcome.
+func vtC15Do(qt *quotaTopology, op vtC15Op) int64 {
+	if op.kind >= 3 {
+		return vtC15Inform(qt, op)
+	}
+	return vtB(vtC15Apply(qt, op))
+}
+
 // vtC15Apply drives one request through the real entry point; true = admitted.
 func vtC15Apply(qt *quotaTopology, op vtC15Op) bool {
 	if len(op.pods) == 0 {
@@ -434,7 +463,7 @@ func vtC15Exec(in []int64) []int64 {
 	qt := NewQuotaTopology(nil)
 	obs := make([]int64, 0, 64*len(ops))
 	for _, op := range ops {
-		obs = append(obs, vtB(vtC15Apply(qt, op)))
+		obs = append(obs, vtC15Do(qt, op))
 		obs = append(obs, vtC15Observe(qt)...)
 	}
 	return obs
@@ -981,83 +1010,257 @@ func vtC15Gen(r *rand.Rand, i int) (string, []int64) {
 		in[1] = int64(nops)
 	}
 	for j := 0; j < nops; j++ {
-		live := g.live()
-		op := vtC15Op{}
-		x := r.Intn(100)
-		switch {
-		case len(live) == 0 || x < 40: // create
-			op.kind = 0
-			var free []int64
-			for _, n := range names {
-				if _, ok := g.store[n]; !ok {
-					free = append(free, n)
-				}
-			}
-			if len(free) > 0 && r.Intn(10) != 0 {
-				op.name = g.pick(free)
-			} else {
-				op.name = g.pick(names)
-			}
-			if g.style == "special" && r.Intn(3) == 0 {
-				op.name = int64(r.Intn(3))
-			}
-			op.newP = g.fresh(g.parentChoice(op.name))
-			if op.name == 0 && r.Intn(3) != 0 {
-				// the root object the scheduler creates
-				op.newP = vtC15Payload{plabel: -1, isParent: true}
-			}
-		case x < 80: // update
-			op.kind = 1
-			op.name = g.pick(live)
-			if r.Intn(12) == 0 {
-				op.name = g.pick(names)
-			}
-			if g.style == "special" && r.Intn(6) == 0 {
-				op.name = int64(r.Intn(3))
-			}
-			old, ok := g.store[op.name]
-			if !ok {
-				old = g.fresh(g.parentChoice(op.name))
-			} else if r.Intn(15) == 0 {
-				old = g.mutate(op.name, old) // a stale old object
-			}
-			op.oldP = old
-			op.newP = g.mutate(op.name, old)
-		default: // delete
-			op.kind = 2
-			op.name = g.pick(live)
-			if r.Intn(10) == 0 {
-				op.name = g.pick(names)
-			}
-			if g.style == "special" && r.Intn(6) == 0 {
-				op.name = int64(r.Intn(3))
-			}
-			if s, ok := g.store[op.name]; ok && r.Intn(15) != 0 {
-				op.newP = s
-			} else {
-				op.newP = g.fresh(-1)
-			}
-		}
-		podNs := op.oldP.ns
-		if op.kind == 2 {
-			podNs = op.newP.ns
-		}
-		// an is-parent flip to true (refused while pods are bound) gets pods more often
-		op.pods = g.pods(op.name, podNs, op.kind == 1 && !op.oldP.isParent && op.newP.isParent)
+		op := g.request(names)
 		in = append(in, vtC15EncOp(op)...)
 		if vtC15Apply(g.qt, op) {
-			switch op.kind {
-			case 0, 1:
-				g.store[op.name] = vtC15CopyPayload(op.newP)
-			default:
-				delete(g.store, op.name)
-			}
+			g.persist(op)
 		}
 	}
 	return g.style, in
 }
 
+// persist records an admitted write in the generator's copy of the API server's content
+func (g *vtC15GenState) persist(op vtC15Op) {
+	switch op.kind % 3 {
+	case 0, 1:
+		g.store[op.name] = vtC15CopyPayload(op.newP)
+	default:
+		delete(g.store, op.name)
+	}
+}
+
+// request draws the next admission request against the current store
+func (g *vtC15GenState) request(names []int64) vtC15Op {
+	r := g.r
+	live := g.live()
+	op := vtC15Op{}
+	x := r.Intn(100)
+	switch {
+	case len(live) == 0 || x < 40: // create
+		op.kind = 0
+		var free []int64
+		for _, n := range names {
+			if _, ok := g.store[n]; !ok {
+				free = append(free, n)
+			}
+		}
+		if len(free) > 0 && r.Intn(10) != 0 {
+			op.name = g.pick(free)
+		} else {
+			op.name = g.pick(names)
+		}
+		if g.style == "special" && r.Intn(3) == 0 {
+			op.name = int64(r.Intn(3))
+		}
+		op.newP = g.fresh(g.parentChoice(op.name))
+		if op.name == 0 && r.Intn(3) != 0 {
+			// the root object the scheduler creates
+			op.newP = vtC15Payload{plabel: -1, isParent: true}
+		}
+	case x < 80: // update
+		op.kind = 1
+		op.name = g.pick(live)
+		if r.Intn(12) == 0 {
+			op.name = g.pick(names)
+		}
+		if g.style == "special" && r.Intn(6) == 0 {
+			op.name = int64(r.Intn(3))
+		}
+		old, ok := g.store[op.name]
+		if !ok {
+			old = g.fresh(g.parentChoice(op.name))
+		} else if r.Intn(15) == 0 {
+			old = g.mutate(op.name, old) // a stale old object
+		}
+		op.oldP = old
+		op.newP = g.mutate(op.name, old)
+	default: // delete
+		op.kind = 2
+		op.name = g.pick(live)
+		if r.Intn(10) == 0 {
+			op.name = g.pick(names)
+		}
+		if g.style == "special" && r.Intn(6) == 0 {
+			op.name = int64(r.Intn(3))
+		}
+		if s, ok := g.store[op.name]; ok && r.Intn(15) != 0 {
+			op.newP = s
+		} else {
+			op.newP = g.fresh(-1)
+		}
+	}
+	podNs := op.oldP.ns
+	if op.kind == 2 {
+		podNs = op.newP.ns
+	}
+	// an is-parent flip to true (refused while pods are bound) gets pods more often
+	op.pods = g.pods(op.name, podNs, op.kind == 1 && !op.oldP.isParent && op.newP.isParent)
+	return op
+}
+
 func TestVerifC15(t *testing.T) { vtMain(t, "C15", vtC15Gen, vtC15Exec) }
+
+// ---- informer stream: the observed replica handles admission requests AND the informer
+// deliveries a webhook replica receives in production: the echo of every write it admitted
+// itself (sometimes twice, sometimes late or never), the writes a peer replica admitted (the
+// generator runs a second, real quotaTopology that is kept in step through its own informer
+// handlers and validates the peer's requests), periodic resyncs (update events with old == new),
+// and, rarely, stale or fabricated events. ----
+
+// vtC15FieldsEq: ValidUpdateQuota returns early (nothing is checked) when these fields agree
+func vtC15FieldsEq(a, b vtC15Payload) bool {
+	if a.plabel != b.plabel || a.isParent != b.isParent || a.tree != b.tree || a.nsBad != b.nsBad {
+		return false
+	}
+	if !a.nsBad && fmt.Sprint(a.ns) != fmt.Sprint(b.ns) {
+		return false
+	}
+	m := func(v [][2]int64) string {
+		mm := map[int64]int64{}
+		for _, kv := range v {
+			mm[kv[0]] = kv[1]
+		}
+		return fmt.Sprint(mm)
+	}
+	return m(a.min) == m(b.min) && m(a.max) == m(b.max)
+}
+
+func vtC15InfOp(op vtC15Op) vtC15Op {
+	e := op
+	e.kind = op.kind%3 + 3
+	return e
+}
+
+func vtC15InfGen(r *rand.Rand, i int) (string, []int64) {
+	g := &vtC15GenState{r: r, qt: NewQuotaTopology(nil), store: map[int64]vtC15Payload{}}
+	peer := NewQuotaTopology(nil) // a second replica, in step with the API server's content
+	g.style = []string{"small", "small", "deep", "siblings", "siblings", "large"}[r.Intn(6)]
+	mode := []string{"echo", "echo", "peers", "peers", "mixed", "unruly"}[r.Intn(6)]
+	flagDrop := os.Getenv("VERIF_C15_FLAGDROP") == "1"
+	if flagDrop && r.Intn(3) == 0 {
+		mode = "flagdrop" // steer towards the shape of findings/C15-unchecked-flag-drop.md
+	}
+	nops := 4 + r.Intn(14)
+	gates := int64(0)
+	if r.Intn(4) == 0 {
+		gates++
+	}
+	if r.Intn(5) == 0 {
+		gates += 2
+	}
+	g.gate = gates%2 == 1
+	g.guar = gates >= 2
+	vtC15SetGate(gates)
+	defer vtC15SetGate(0)
+	names := []int64{3, 4, 5, 6, 7}
+	if g.style == "deep" || g.style == "siblings" {
+		names = []int64{3, 4, 5, 6, 7, 8}
+	}
+	var ops []vtC15Op
+	emit := func(op vtC15Op) int64 { // to the observed replica
+		ops = append(ops, op)
+		return vtC15Do(g.qt, op)
+	}
+	var late []vtC15Op // echoes not delivered yet
+	var history []vtC15Op
+	draw := func() vtC15Op {
+		op := g.request(names)
+		if mode == "flagdrop" {
+			switch {
+			case op.kind == 0 && op.newP.plabel > 0 && r.Intn(2) == 0:
+				// a child admitted only under allow-force-update: its min is above what is left
+				op.newP.force = true
+				for j := range op.newP.min {
+					if room, ok := g.room(op.newP.plabel, op.name, op.newP.min[j][0]); ok {
+						op.newP.min[j][1] = room + 1000
+					}
+				}
+			case op.kind == 1 && (op.oldP.force || op.oldP.treeRoot) && r.Intn(2) == 0:
+				// nothing but the label changes: admitted unchecked
+				op.newP = vtC15CopyPayload(op.oldP)
+				op.newP.force, op.newP.treeRoot = false, false
+			}
+		}
+		if op.kind == 1 && !flagDrop && vtC15FieldsEq(op.oldP, op.newP) {
+			// an update that is admitted unchecked: keep the allow-force-update / is-root labels
+			// (findings/C15-unchecked-flag-drop.md; VERIF_C15_FLAGDROP=1 generates the shape)
+			op.newP.force, op.newP.treeRoot = op.oldP.force, op.oldP.treeRoot
+		}
+		return op
+	}
+	for len(ops) < nops {
+		x := r.Intn(100)
+		peerShare := map[string]int{"echo": 0, "peers": 60, "mixed": 35, "unruly": 30, "flagdrop": 20}[mode]
+		switch {
+		case x < peerShare:
+			// a write validated by the peer replica; the observed replica only sees the event
+			op := draw()
+			if vtC15Apply(peer, op) {
+				g.persist(op)
+				ev := vtC15InfOp(op)
+				vtC15Inform(peer, ev) // the peer's own echo
+				emit(ev)
+				history = append(history, ev)
+				if r.Intn(8) == 0 {
+					emit(ev) // delivered twice
+				}
+			} else if mode == "unruly" && r.Intn(3) == 0 {
+				emit(vtC15InfOp(op)) // an event for a write nobody admitted
+			}
+		case x < 88:
+			// a request handled by the observed replica
+			op := draw()
+			if emit(op) == 1 {
+				g.persist(op)
+				ev := vtC15InfOp(op)
+				vtC15Inform(peer, ev)
+				history = append(history, ev)
+				switch y := r.Intn(20); {
+				case y < 15:
+					emit(ev)
+					if r.Intn(6) == 0 {
+						emit(ev)
+					}
+				case y < 17 || mode != "unruly":
+					// no echo before the next op (the informer lags)
+					if mode == "unruly" {
+						late = append(late, ev)
+					}
+				default:
+					late = append(late, ev)
+				}
+			}
+		case x < 94:
+			// resync: update event with the stored object on both sides
+			if live := g.live(); len(live) > 0 {
+				n := g.pick(live)
+				p := g.store[n]
+				emit(vtC15Op{kind: 4, name: n, newP: p, oldP: p})
+			}
+		default:
+			switch {
+			case mode == "unruly" && len(late) > 0:
+				emit(late[0]) // a late echo
+				late = late[1:]
+			case mode == "unruly" && len(history) > 0:
+				emit(history[r.Intn(len(history))]) // a stale event, delivered again
+			default:
+				if live := g.live(); len(live) > 0 {
+					n := g.pick(live)
+					p := g.store[n]
+					emit(vtC15Op{kind: 4, name: n, newP: p, oldP: p})
+				}
+			}
+		}
+	}
+	in := []int64{gates, int64(len(ops))}
+	for _, op := range ops {
+		in = append(in, vtC15EncOp(op)...)
+	}
+	return mode + "/" + g.style, in
+}
+
+func TestVerifC15Inf(t *testing.T) { vtMain(t, "C15", vtC15InfGen, vtC15Exec) }
 
 // ---- exhaustive stream: case i is the i-th request sequence (shortest first) over the names
 // {3,4,5}: create with parent in {root, the two other names} x is-parent x min in {600m,1200m} (one
